@@ -327,6 +327,36 @@ func (s *Solver) Check(asserts []*Term, want []*Term) (Result, Model, string) {
 	return res, model, last
 }
 
+// CheckRaw decides a self-contained SMT-LIB text (declarations + assertions) on z3, falling back to the others.
+func (s *Solver) CheckRaw(text string) (Result, string) {
+	t0 := time.Now()
+	res, info := Unknown, ""
+	for i, be := range []Backend{Z3, Z3New, CVC5} {
+		to := s.Timeout
+		if i > 0 {
+			to = s.Long
+		}
+		r, _, inf := s.checkOn(be, text, nil, to)
+		info = be.Name + ":" + inf
+		if r != Unknown {
+			res = r
+			cnt, _ := GlobalStats.PerBackend.LoadOrStore(be.Name, new(int64))
+			atomic.AddInt64(cnt.(*int64), 1)
+			break
+		}
+	}
+	atomic.AddInt64(&GlobalStats.Nanos, int64(time.Since(t0)))
+	switch res {
+	case Sat:
+		atomic.AddInt64(&GlobalStats.Sat, 1)
+	case Unsat:
+		atomic.AddInt64(&GlobalStats.Unsat, 1)
+	default:
+		atomic.AddInt64(&GlobalStats.Unknown, 1)
+	}
+	return res, info
+}
+
 // CheckOn forces a specific back end (used for second-solver diffing).
 func (s *Solver) CheckOn(be Backend, asserts []*Term, timeout time.Duration) (Result, string) {
 	d, err := collectDecls(asserts)
